@@ -1,7 +1,8 @@
 /-
 C18 — executable model of the vertex finders (modify/find/finder.py, geometric.py, shape.py,
 util/functions.py: is_point_on_plane) and of the view-point re-orienter
-(modify/reorient/viewpoint.py, as it is after the repairs: result check and handedness swap).
+(modify/reorient/viewpoint.py, as it is after the repairs: result check, handedness swap, 60° limit
+between the two triangles of a face).
 Core Lean only.  Square roots never appear: every comparison of the code that involves a norm
 or a unit vector is replaced by the equivalent comparison of squares (sign aware).
 -/
@@ -185,13 +186,22 @@ def uniquePoints (l1 l2 : List V3) : List V3 :=
   let cp := commonPoints l1 l2
   (l1 ++ l2).filter (fun p => !(cp.any (fun c => decide (near p c))))
 
+/-- repair 3: `np.dot(t0.normal, t1.normal) < 0.5` (unit normals more than 60° apart), without square roots -/
+def tooSteep (t0 t1 : Tri) : Prop :=
+  V3.dot t0.normalRaw t1.normalRaw < 0 ∨
+    4 * (V3.dot t0.normalRaw t1.normalRaw * V3.dot t0.normalRaw t1.normalRaw) < V3.norm2 t0.normalRaw * V3.norm2 t1.normalRaw
+
+instance (t0 t1 : Tri) : Decidable (tooSteep t0 t1) := by unfold tooSteep; infer_instance
+
 /-- `Quadrangle.__init__` on `[t0, t1]`; the result is `Quadrangle.points`. -/
 def mkQuad (t0 t1 : Tri) : Except Err (List V3) :=
-  let cp := commonPoints t0.points t1.points
-  if cp.length ≠ 2 then .error .degenerate
+  if tooSteep t0 t1 then .error .degenerate
   else
-    let up := uniquePoints t0.points t1.points
-    if up.length ≠ 2 then .error .degenerate else .ok (up ++ cp)
+    let cp := commonPoints t0.points t1.points
+    if cp.length ≠ 2 then .error .degenerate
+    else
+      let up := uniquePoints t0.points t1.points
+      if up.length ≠ 2 then .error .degenerate else .ok (up ++ cp)
 
 /-- `Quadrangle.get_common_point` -/
 def commonPoint (q q1 q2 : List V3) : Except Err V3 :=
